@@ -104,7 +104,10 @@ def run(rep, tier, rng):
             return "(Some AOtherError)"
         return "(Some ABuildError)"
 
-    def exec_history(hist, bodies):
+    SubSel = type("UserActionSelection", (ActionSelection,), {})     # a user-defined subclass of the block class
+
+    def exec_history(hist, bodies, hidx=0):
+        Sel = ActionSelection if hidx % 2 == 0 else SubSel
         obs, log = [], []
         with spa.Network() as net:
             s1, s2, s3 = spa.State(16), spa.State(16), spa.State(16)
@@ -182,16 +185,25 @@ def run(rep, tier, rng):
                 err, blk, dconns = None, None, 0
                 try:
                     if ev[0] == "block":
-                        with ActionSelection() as blk:
+                        with Sel() as blk:
                             do_body(bodies[ev[1]], blk)
                     elif ev[0] == "route":
                         before = nconn()
                         s1 >> s3
                         dconns = nconn() - before
                     else:
-                        spa.ifmax(0, s1 >> s2)
+                        # outside a block every form of the call is reported as "must be used within ... an ActionSelection instance",
+                        # also forms that would be rejected inside a block for another reason
+                        if hidx % 3 == 0:
+                            spa.ifmax(0, s1 >> s2)
+                        elif hidx % 3 == 1:
+                            spa.ifmax("named", 0, s1 >> s2)
+                        else:
+                            spa.ifmax(s1, s1 >> s2)
                 except (Exception, Halt) as e:  # noqa
                     err = e
+                if ev[0] == "ifmax-outside" and isinstance(err, SpaActionSelectionError) and "ActionSelection instance" not in str(err):
+                    err = RuntimeError("ifmax outside a block reported with another message: " + str(err)[:80])
                 at_rest = ActionSelection.active is None and ModuleInput.routed_mode is False and len(RoutedConnection.free_floating) == 0
                 if ev[0] == "ifmax-outside":
                     # the routing expression inside the failing call was connected immediately (not in a block)
@@ -213,7 +225,8 @@ def run(rep, tier, rng):
                     except Exception:  # noqa
                         getok = False
                 obs.append(f"(AObs {c.b(at_rest)} {classify(err)} {built} {keys} {c.b(getok)} {c.nat(dconns)} {c.b(inside_flag[0])})")
-                log.append({"event": ev, "error": None if err is None else type(err).__name__, "at_rest": at_rest,
+                log.append({"event": ev, "block_class": Sel.__name__, "ifmax_outside_form": ["ifmax(0, a >> b)", "ifmax('named', 0, a >> b)", "ifmax(state, a >> b)"][hidx % 3],
+                            "error": None if err is None else type(err).__name__, "at_rest": at_rest,
                             "built": None if blk is None else blk.built, "keys": None if blk is None else [str(k) for k in blk.keys()]})
                 # reset process-wide state so that one bad history cannot poison the next (recorded above)
                 ActionSelection.active = None
@@ -252,8 +265,8 @@ def run(rep, tier, rng):
         hists.append((evs, bodies))
 
     exprs, cases = [], []
-    for hist, bodies in hists:
-        obs, log = exec_history(hist, bodies)
+    for hidx_, (hist, bodies) in enumerate(hists):
+        obs, log = exec_history(hist, bodies, hidx_)
         exprs.append(f"history_first_bad {c.lst([coq_event(e, bodies) for e in hist])} {c.lst(obs)}")
         cases.append((hist, bodies, log))
         failing = [i for i, l in enumerate(log) if l["error"]]
